@@ -9,12 +9,14 @@ package c07
 
 import (
 	"context"
+	"encoding/binary"
 	"errors"
 	"fmt"
 	"io"
 	"os"
 	"path/filepath"
 	"strconv"
+	"sync"
 	"syscall"
 	"time"
 
@@ -24,14 +26,19 @@ import (
 	"github.com/lindb/roaring"
 
 	"github.com/lindb/lindb/config"
+	"github.com/lindb/lindb/coordinator/storage"
 	"github.com/lindb/lindb/flow"
+	"github.com/lindb/lindb/internal/verifhook"
+	"github.com/lindb/lindb/kv/table"
 	"github.com/lindb/lindb/models"
+	"github.com/lindb/lindb/pkg/bufioutil"
 	"github.com/lindb/lindb/pkg/compress"
 	"github.com/lindb/lindb/pkg/encoding"
 	"github.com/lindb/lindb/pkg/option"
 	"github.com/lindb/lindb/pkg/queue"
 	"github.com/lindb/lindb/pkg/timeutil"
 	"github.com/lindb/lindb/replica"
+	"github.com/lindb/lindb/rpc"
 	"github.com/lindb/lindb/series/field"
 	"github.com/lindb/lindb/series/metric"
 	"github.com/lindb/lindb/sql/stmt"
@@ -78,10 +85,16 @@ type node struct {
 	shard tsdb.Shard
 	fam   tsdb.DataFamily
 
-	fq     queue.FanOutQueue
-	part   replica.Partition
-	cg     queue.ConsumerGroup
-	cancel context.CancelFunc
+	// write-ahead log: lindb's manager / database log / partition / local replicator.
+	// part, fq, cg are nil when the log directory does not exist (removed by the WAL garbage collector).
+	mgr     replica.WriteAheadLogManager
+	part    replica.Partition
+	fq      queue.FanOutQueue
+	cg      queue.ConsumerGroup
+	cancel  context.CancelFunc
+	hooks   *famHooks
+	walLost bool // the partition was destroyed while this process was running
+	expired bool // the family's write window is over (WAL garbage collection applies)
 
 	// midFlush is called from the family's first ack callback: after the data commit (table +
 	// sequences in the manifest), before the replicator's callback acknowledges the WAL.
@@ -95,6 +108,89 @@ type node struct {
 	// the persisted sequence and rewinds)
 	imageAck, imageConsumed int64
 }
+
+// famHooks are called from inside lindb's own localReplicator.Replica through the DataFamily the
+// partition was given (a wrapper that only forwards): the places between its steps.
+type famHooks struct {
+	afterValidate func(seq int64, ok bool)
+	beforeWrite   func()
+	afterWrite    func()
+	beforeCommit  func()
+	afterCommit   func()
+	inGap         func() // verifhook "tsdb.dataFamily.writeRows.afterGetMemDB": memdb looked up, writer not registered
+}
+
+type hookFamily struct {
+	tsdb.DataFamily
+	h *famHooks
+}
+
+func (f *hookFamily) ValidateSequence(l int32, s int64) bool {
+	ok := f.DataFamily.ValidateSequence(l, s)
+	if f.h.afterValidate != nil {
+		f.h.afterValidate(s, ok)
+	}
+	return ok
+}
+
+func (f *hookFamily) WriteRows(rows []*metric.StorageRow) error {
+	if f.h.beforeWrite != nil {
+		f.h.beforeWrite()
+	}
+	err := f.DataFamily.WriteRows(rows)
+	if f.h.afterWrite != nil {
+		f.h.afterWrite()
+	}
+	return err
+}
+
+func (f *hookFamily) CommitSequence(l int32, s int64) {
+	if f.h.beforeCommit != nil {
+		f.h.beforeCommit()
+	}
+	f.DataFamily.CommitSequence(l, s)
+	if f.h.afterCommit != nil {
+		f.h.afterCommit()
+	}
+}
+
+// currentHooks is the hook set of the node being opened / running (one node at a time).
+var currentHooks *famHooks
+
+var installOnce sync.Once
+
+// installGlobals: partitions do not start their background replica loop (the harness runs the
+// loop body), get the forwarding family wrapper, and the verifhook scheduler dispatches to the
+// current node.
+func installGlobals() {
+	installOnce.Do(func() {
+		replica.VerifDisableReplicaLoop()
+		prev := replica.NewPartitionFn
+		replica.NewPartitionFn = func(ctx context.Context, shard tsdb.Shard, family tsdb.DataFamily, id models.NodeID,
+			log queue.FanOutQueue, cliFct rpc.ClientStreamFactory, stateMgr storage.StateManager) replica.Partition {
+			if currentHooks != nil {
+				family = &hookFamily{DataFamily: family, h: currentHooks}
+			}
+			return prev(ctx, shard, family, id, log, cliFct, stateMgr)
+		}
+		verifhook.Set(func(id string) {
+			if id == "tsdb.dataFamily.writeRows.afterGetMemDB" {
+				if h := currentHooks; h != nil && h.inGap != nil {
+					h.inGap()
+				}
+			}
+		})
+		table.VerifC01SetNewWriter(func(fileName string) (bufioutil.BufioWriter, error) {
+			if f := tableHook; f != nil {
+				f(fileName)
+			}
+			return bufioutil.NewBufioStreamWriter(fileName)
+		})
+	})
+}
+
+// tableHook is called before every table (sst) file creation of any kv store.
+var tableHook func(fileName string)
 
 func setConfig(root string) {
 	cfg := config.NewDefaultStorageBase()
@@ -116,9 +212,11 @@ func walDir(root string, famTime int64) string {
 }
 
 // openNode opens (fresh dir) or recovers (crash image) the node in root.
-func openNode(root string, famTime int64) (n *node, err error) {
+func openNode(root string, famTime int64, expired bool) (n *node, err error) {
+	installGlobals()
 	setConfig(root)
-	n = &node{root: root, famTime: famTime}
+	n = &node{root: root, famTime: famTime, hooks: &famHooks{}, expired: expired}
+	currentHooks = n.hooks
 	defer func() {
 		if r := recover(); r != nil {
 			err = fmt.Errorf("panic while opening node: %v", r)
@@ -129,7 +227,9 @@ func openNode(root string, famTime int64) (n *node, err error) {
 	}
 	db, ok := n.eng.GetDatabase(dbName)
 	if !ok {
-		opt := &option.DatabaseOption{Intervals: option.Intervals{{
+		// writes up to 1h ahead and 1d behind are accepted: a family whose hour ended more than
+		// ahead+15min ago is "expired" for the WAL garbage collector
+		opt := &option.DatabaseOption{Ahead: "1h", Behind: "1d", Intervals: option.Intervals{{
 			Interval: timeutil.Interval(interval), Retention: timeutil.Interval(30 * 24 * 3600 * 1000)}}}
 		if err = n.eng.CreateShards(dbName, opt, shardID); err != nil {
 			return nil, err
@@ -151,34 +251,43 @@ func openNode(root string, famTime int64) (n *node, err error) {
 		}
 	})
 	dir := walDir(root, famTime)
+	n.imageAck, n.imageConsumed = readGroupMeta(dir)
 	_, statErr := os.Stat(filepath.Join(dir, "cg"))
 	existed := statErr == nil
-	if n.fq, err = queue.NewFanOutQueue(dir, 128*1024*1024); err != nil {
-		return nil, err
-	}
-	n.imageAck, n.imageConsumed = -1, -1
-	if existed && len(n.fq.ConsumerGroupNames()) > 0 {
-		g, gerr := n.fq.GetOrCreateConsumerGroup(strconv.Itoa(int(leader)))
-		if gerr != nil {
-			return nil, gerr
-		}
-		n.imageAck, n.imageConsumed = g.AcknowledgedSeq(), g.ConsumedSeq()
-	}
 	ctx, cancel := context.WithCancel(context.Background())
 	n.cancel = cancel
-	n.part = replica.NewPartition(ctx, n.shard, n.fam, leader, n.fq, nil, nil)
-	if existed && len(n.fq.ConsumerGroupNames()) > 0 {
-		// writeAheadLog.recovery: GetOrCreatePartition + partition.recovery(leader)
-		err = replica.VerifPartitionRecovery(n.part, leader)
-	} else {
-		// first write connection of the leader: local replicator for the node itself
-		err = n.part.BuildReplicaForLeader(leader, []models.NodeID{leader})
+	n.mgr = replica.NewWriteAheadLogManager(ctx, config.GlobalStorageConfig().WAL, leader, n.eng, nil, nil)
+	if _, e := os.Stat(filepath.Join(root, "wal")); e == nil {
+		// storage runtime start: recover the local write-ahead logs (real directory walk,
+		// GetOrCreatePartition + partition.recovery per leader directory)
+		if err = n.mgr.Recovery(); err != nil {
+			return nil, err
+		}
 	}
-	if err != nil {
-		return nil, err
+	log := n.mgr.GetOrCreateLog(dbName)
+	if p, ok := replica.VerifHasPartition(log, shardID, famTime, leader); ok {
+		n.part = p
+	} else if !existed && !n.walWasRemoved() {
+		// first write of the leader for this family
+		if n.part, err = log.GetOrCreatePartition(shardID, famTime, leader); err != nil {
+			return nil, err
+		}
+		if err = n.part.BuildReplicaForLeader(leader, []models.NodeID{leader}); err != nil {
+			return nil, err
+		}
+		if err = os.WriteFile(filepath.Join(root, "wal-created"), []byte("1"), 0o644); err != nil {
+			return nil, err
+		}
 	}
-	if n.cg, err = n.fq.GetOrCreateConsumerGroup(strconv.Itoa(int(leader))); err != nil {
-		return nil, err
+	if n.part != nil {
+		fq, ok := replica.VerifPartitionLog(n.part)
+		if !ok {
+			return nil, errors.New("partition without log")
+		}
+		n.fq = fq
+		if n.cg, err = n.fq.GetOrCreateConsumerGroup(strconv.Itoa(int(leader))); err != nil {
+			return nil, err
+		}
 	}
 	n.fam.AckSequence(leader32, func(int64) {
 		if n.postAck != nil {
@@ -186,6 +295,22 @@ func openNode(root string, famTime int64) (n *node, err error) {
 		}
 	})
 	return n, nil
+}
+
+// walWasRemoved: the node once had a log for the family (marker file) and its directory is gone.
+func (n *node) walWasRemoved() bool {
+	_, e := os.Stat(filepath.Join(n.root, "wal-created"))
+	return e == nil
+}
+
+// readGroupMeta reads the local replicator's consumer group positions straight from its meta page
+// in the directory (consumed at offset 0, acknowledged at offset 8, little endian).
+func readGroupMeta(dir string) (ack, consumed int64) {
+	b, err := os.ReadFile(filepath.Join(dir, "cg", strconv.Itoa(int(leader)), "0.bat"))
+	if err != nil || len(b) < 16 {
+		return -1, -1
+	}
+	return int64(binary.LittleEndian.Uint64(b[8:16])), int64(binary.LittleEndian.Uint64(b[0:8]))
 }
 
 // close shuts the node down (used on the abandoned original after a crash image was taken and at
@@ -202,16 +327,18 @@ func (n *node) close() {
 		defer func() { _ = recover() }()
 		// the engine first: closing a family flushes it and runs the ack callbacks, which store into
 		// the consumer group's mmap page; the log must still be mapped then.
-		if n.part != nil {
-			n.part.Stop()
+		if n.mgr != nil {
+			n.mgr.Stop()
 		}
-		if n.eng != nil {
+		// Without its log partition the node is not closed but abandoned: closing the engine would
+		// flush the family, and the replicator's ack callback of a partition that was destroyed
+		// stores into an unmapped page (a fatal fault, not a panic). Nothing is lost by leaking it:
+		// the directory is a scratch copy.
+		if n.eng != nil && !n.walLost {
 			n.eng.Close()
 		}
-		if n.part != nil {
-			_ = n.part.Close()
-		} else if n.fq != nil {
-			n.fq.Close()
+		if n.mgr != nil {
+			_ = n.mgr.Close()
 		}
 		if n.cancel != nil {
 			n.cancel()
@@ -226,6 +353,7 @@ func (n *node) close() {
 // ---------------------------------------------------------------- positions
 
 type positions struct {
+	walGone                 bool
 	appended, consumed, ack int64
 	seq, stored             int64
 	hasSeq, hasStored       bool
@@ -239,6 +367,9 @@ func optStr(v int64, ok bool) string {
 }
 
 func (p positions) String() string {
+	if p.walGone {
+		return fmt.Sprintf("wal=gone q=%s s=%s", optStr(p.seq, p.hasSeq), optStr(p.stored, p.hasStored))
+	}
 	return fmt.Sprintf("a=%d c=%d k=%d q=%s s=%s", p.appended, p.consumed, p.ack, optStr(p.seq, p.hasSeq), optStr(p.stored, p.hasStored))
 }
 
@@ -251,7 +382,10 @@ func (n *node) storedSeq() (int64, bool) {
 }
 
 func (n *node) pos() positions {
-	p := positions{appended: n.fq.Queue().AppendedSeq(), consumed: n.cg.ConsumedSeq(), ack: n.cg.AcknowledgedSeq()}
+	p := positions{walGone: n.part == nil, appended: -1, consumed: -1, ack: -1}
+	if n.part != nil {
+		p.appended, p.consumed, p.ack = n.fq.Queue().AppendedSeq(), n.cg.ConsumedSeq(), n.cg.AcknowledgedSeq()
+	}
 	st := n.fam.GetState()
 	p.seq, p.hasSeq = st.ReplicaSequences[leader32]
 	p.stored, p.hasStored = n.storedSeq()
@@ -282,6 +416,9 @@ func (e entry) message(famTime int64) ([]byte, error) {
 
 // appendEntry = partition.WriteLog (queue.Put).
 func (n *node) appendEntry(e entry) error {
+	if n.part == nil {
+		return errors.New("no log partition")
+	}
 	msg, err := e.message(n.famTime)
 	if err != nil {
 		return err
@@ -306,7 +443,24 @@ func (n *node) preregister(e entry) error {
 	return err
 }
 
-func (n *node) pending() bool { return n.cg.ConsumedSeq() < n.fq.Queue().AppendedSeq() }
+func (n *node) pending() bool {
+	return n.part != nil && n.cg.ConsumedSeq() < n.fq.Queue().AppendedSeq()
+}
+
+// walGC runs one tick of the write-ahead-log garbage-collect task (writeAheadLog.destroy ->
+// partition.IsExpire -> stop / close / remove the directory of an expired, fully acknowledged log).
+func (n *node) walGC() error {
+	if !replica.VerifGarbageCollect(n.mgr) {
+		return errors.New("not lindb's WAL manager")
+	}
+	if n.part != nil {
+		if _, ok := replica.VerifHasPartition(n.mgr.GetOrCreateLog(dbName), shardID, n.famTime, leader); !ok {
+			n.part, n.fq, n.cg = nil, nil, nil
+			n.walLost = true
+		}
+	}
+	return nil
+}
 
 // applyNext runs one iteration of the partition's replica loop body (Consume, GetMessage,
 // localReplicator.Replica = validate -> write rows -> commit sequence) on the real partition.
@@ -322,52 +476,6 @@ func (n *node) applyNext(e entry) error {
 	}
 	return nil
 }
-
-// split apply (flush racing replication): the harness performs Replica's three calls itself so that
-// flush steps can be placed between them. Consume/GetMessage are the replicator's.
-type splitApply struct {
-	seq   int64
-	valid bool
-	rows  *metric.StorageBatchRows
-}
-
-func (n *node) applyBegin(e entry) (*splitApply, error) {
-	if !n.pending() {
-		return nil, errors.New("nothing pending")
-	}
-	r, ok := replica.VerifReplicator(n.part, leader)
-	if !ok {
-		return nil, errors.New("no local replicator")
-	}
-	seq := r.Consume()
-	if seq < 0 {
-		return nil, errors.New("consume returned no message")
-	}
-	msg, err := r.GetMessage(seq)
-	if err != nil {
-		return nil, err
-	}
-	sa := &splitApply{seq: seq, valid: n.fam.ValidateSequence(leader32, seq)}
-	if !sa.valid {
-		return sa, nil
-	}
-	block, err := compress.NewSnappyReader().Uncompress(msg)
-	if err != nil {
-		return nil, err
-	}
-	sa.rows = metric.NewStorageBatchRows()
-	sa.rows.UnmarshalRows(append([]byte(nil), block...))
-	return sa, nil
-}
-
-func (n *node) applyWrite(e entry, sa *splitApply) error {
-	if err := n.preregister(e); err != nil {
-		return err
-	}
-	return n.fam.WriteRows(sa.rows.Rows())
-}
-
-func (n *node) applyCommit(sa *splitApply) { n.fam.CommitSequence(leader32, sa.seq) }
 
 // ---------------------------------------------------------------- flush steps (the public steps doFlush calls)
 
@@ -398,53 +506,56 @@ func (n *node) doFlush() error {
 // ---------------------------------------------------------------- lookups
 
 // liveIDs resolves the ids of e's names on the running node (memory + disk dictionaries).
-func (n *node) liveIDs(e entry) ids {
-	sid, mid, err := n.resolve(e)
+func (n *node) liveIDs(e entry) []ids {
+	sids, mid, err := n.resolve(e)
 	if err != nil {
-		return ids{}
+		return nil
 	}
-	return ids{metricID: mid, seriesID: sid, ok: true}
+	var out []ids
+	for _, sid := range sids {
+		out = append(out, ids{metricID: mid, seriesID: sid, ok: true})
+	}
+	return out
 }
 
 // resolve is the leaf-level name resolution a query performs: namespace+metric name -> metric id,
 // schema -> tag key id and field, tag value -> tag value id, inverted index -> series id.
-func (n *node) resolve(e entry) (seriesID uint32, mid metric.ID, err error) {
+func (n *node) resolve(e entry) (seriesIDs []uint32, mid metric.ID, err error) {
 	mid, err = n.db.MetaDB().GetMetricID(nsName, metricName(e.Metric))
 	if err != nil {
-		return 0, 0, fmt.Errorf("metric: %w", err)
+		return nil, 0, fmt.Errorf("metric: %w", err)
 	}
 	schema, err := n.db.MetaDB().GetSchema(mid)
 	if err != nil {
-		return 0, mid, fmt.Errorf("schema: %w", err)
+		return nil, mid, fmt.Errorf("schema: %w", err)
 	}
 	if schema == nil {
-		return 0, mid, errors.New("schema: not found")
+		return nil, mid, errors.New("schema: not found")
 	}
 	if _, ok := schema.Fields.Find(field.Name(fieldName)); !ok {
-		return 0, mid, errors.New("schema: field not found")
+		return nil, mid, errors.New("schema: field not found")
 	}
 	tk, ok := schema.TagKeys.Find(tagKey)
 	if !ok {
-		return 0, mid, errors.New("schema: tag key not found")
+		return nil, mid, errors.New("schema: tag key not found")
 	}
 	tvs, err := n.db.MetaDB().FindTagValueDsByExpr(tk.ID, &stmt.EqualsExpr{Key: tagKey, Value: tagValue(e.Tagv)})
 	if err != nil {
-		return 0, mid, fmt.Errorf("tag value: %w", err)
+		return nil, mid, fmt.Errorf("tag value: %w", err)
 	}
 	if tvs == nil || tvs.IsEmpty() {
-		return 0, mid, errors.New("tag value: not found")
+		return nil, mid, errors.New("tag value: not found")
 	}
 	sids, err := n.shard.IndexDB().GetSeriesIDsByTagValueIDs(tk.ID, tvs)
 	if err != nil {
-		return 0, mid, fmt.Errorf("series: %w", err)
+		return nil, mid, fmt.Errorf("series: %w", err)
 	}
 	if sids == nil || sids.IsEmpty() {
-		return 0, mid, errors.New("series: not found")
+		return nil, mid, errors.New("series: not found")
 	}
-	if sids.GetCardinality() != 1 {
-		return 0, mid, fmt.Errorf("series: %d ids for one tag value", sids.GetCardinality())
-	}
-	return sids.Minimum(), mid, nil
+	// several ids are possible after a crash inside an index flush (a posting of the lost
+	// incarnation of the series next to the replayed one); a query unions them
+	return sids.ToArray(), mid, nil
 }
 
 // maxSeries bounds the series ids a case can create (ids are small consecutive numbers per metric).
